@@ -173,6 +173,10 @@ StarC  == [Star EXCEPT !.ach = (1 :> ("broken" :> T1p @@ "formed" :> T1m)),
 ChainC == [Chain EXCEPT !.bch = ({2,3} :> ("broken" :> P23 @@ "fleeting" :> R23p)),
                         !.bd[{1,2}].role = "broken", !.bst = ({3,4} :> D("PlanarBond", <<2, NoAtom, 3, 4, NoAtom, NoAtom>>, 0))]
 
+(* descriptors that mention an atom which is not bonded to the centre / bond end any more *)
+StarU  == [StarT EXCEPT !.bd = Drop(@, {{1, 2}})]
+ChainU == [ChainP EXCEPT !.bd = Drop(@, {{1, 2}})]
+StarCU == [StarC EXCEPT !.bd = Drop(@, {{1, 3}})]
 (* descriptors whose ligands are not (or no longer) atoms of the graph *)
 Lone  == [EmptyGraph(Kind) EXCEPT !.el = (1 :> 6), !.aat = (1 :> Emp)]
 LoneT == [Lone EXCEPT !.ast = (1 :> T1p)]
@@ -199,8 +203,8 @@ GenSmall ==
 
 Seeds == CASE SeedSet = "empty"  -> { EmptyGraph(Kind) }
            [] SeedSet = "stereo" -> { EmptyGraph(Kind), Star, Chain } \cup
-                                    (IF HasStereo(Kind) THEN { StarT, ChainP, LoneT } ELSE {}) \cup
-                                    (IF HasChanges(Kind) THEN { StarC, ChainC, LoneC } ELSE {})
+                                    (IF HasStereo(Kind) THEN { StarT, ChainP, LoneT, StarU, ChainU } ELSE {}) \cup
+                                    (IF HasChanges(Kind) THEN { StarC, ChainC, LoneC, StarCU } ELSE {})
            [] SeedSet = "gen"    -> GenSmall
            [] SeedSet = "gen+stereo" -> GenSmall \cup { Star, Chain } \cup
                                     (IF HasStereo(Kind) THEN { StarT, ChainP } ELSE {}) \cup
